@@ -37,6 +37,9 @@ struct Oracle {
 	batch_ids: BTreeMap<usize, Vec<Value>>,
 	/// every request id on the wire that has not been answered yet (calls, subscribe / unsubscribe calls, batch entries)
 	inflight: InFlight,
+	/// operations whose future the application dropped before the answer (`cl abandon <op>`): the request stays
+	/// registered, its late answer is absorbed — it completes nothing and does not disturb the connection
+	abandoned: Vec<usize>,
 }
 
 fn canon(s: &str) -> String {
@@ -165,8 +168,43 @@ fn run_one(out: &mut Out, lines: &[String]) {
 				"batch" | "tbatch" => orc.front_op(Kind::Batch),
 				"regnotif" => orc.front_op(Kind::Reg),
 				"notify" => {}
+				"abandon" => {
+					if let Ok(op) = w[2].parse::<usize>() {
+						if !orc.done.contains_key(&op) {
+							orc.abandoned.push(op);
+						}
+					}
+				}
 				_ => {}
 			}
+			// the operation a delivered single response answers: the one that wrote this id and is not finished yet
+			let answered_op: Option<usize> = if w[1] == "deliver" {
+				String::from_utf8(unhex(w[2])).ok().and_then(|d| serde_json::from_str::<Value>(&d).ok()).and_then(|v| {
+					if v.is_object() && msg_kind(&v) == MsgKind::Response {
+						let id = v.get("id").cloned()?;
+						orc.wire_id.iter().find(|(op, x)| **x == id && !orc.done.contains_key(*op) && matches!(orc.kinds[**op], Kind::Call | Kind::Subscribe)).map(|(op, _)| *op)
+					} else {
+						None
+					}
+				})
+			} else {
+				None
+			};
+			// … and the abandoned batch a delivered array answers completely
+			let answered_abandoned_batch: Option<usize> = if w[1] == "deliver" {
+				String::from_utf8(unhex(w[2])).ok().and_then(|d| serde_json::from_str::<Value>(&d).ok()).and_then(|v| {
+					let a = v.as_array()?;
+					let mut y: Vec<String> = a.iter().filter(|e| msg_kind(e) == MsgKind::Response).filter_map(|e| e.get("id").map(|i| i.to_string())).collect();
+					y.sort();
+					orc.batch_ids.iter().find(|(op, ids)| {
+						let mut x: Vec<String> = ids.iter().map(|v| v.to_string()).collect();
+						x.sort();
+						x == y && orc.abandoned.contains(*op) && !orc.done.contains_key(*op)
+					}).map(|(op, _)| *op)
+				})
+			} else {
+				None
+			};
 			let delivered = if w[1] == "deliver" || w[1] == "deliverx" { String::from_utf8(unhex(w[2])).ok() } else { None };
 			// two requests in flight must never bear the same id — otherwise "the response bearing its id" means nothing
 			if let Some(d) = &delivered {
@@ -222,8 +260,38 @@ fn run_one(out: &mut Out, lines: &[String]) {
 					));
 				}
 			}
+			// the answer to an operation: a live one completes with it (check_completion: with exactly its payload); one the
+			// application has abandoned stays registered until answered, so the late answer is absorbed: nothing completes
+			// and the connection goes on (the calls issued since then get their own answers)
+			if let Some(op) = answered_op {
+				nontrivial = true;
+				let mine = obs.comps.iter().any(|(o, _)| *o == op);
+				if orc.abandoned.contains(&op) {
+					out.count("answer.late.to-abandoned");
+					if (obs.fatal.is_some() || !obs.comps.is_empty()) && verdict.is_ok() {
+						verdict = Err(format!(
+							"the late answer to operation {op}, which the application had abandoned but which is still registered, was not absorbed quietly: {}",
+							obs.render()
+						));
+					}
+					orc.done.insert(op, "absorbed".into());
+				} else {
+					out.count("answer.to-live");
+					if (obs.fatal.is_some() || !mine) && verdict.is_ok() {
+						verdict = Err(format!("operation {op} is pending and was answered, but did not complete with its answer: {}", obs.render()));
+					}
+				}
+			}
+			if let Some(op) = answered_abandoned_batch {
+				nontrivial = true;
+				out.count("answer.late.to-abandoned-batch");
+				if (obs.fatal.is_some() || !obs.comps.is_empty()) && verdict.is_ok() {
+					verdict = Err(format!("the late reply to the abandoned batch {op} was not absorbed quietly: {}", obs.render()));
+				}
+				orc.done.insert(op, "absorbed".into());
+			}
 			// arrays: every element has the effect it would have alone, or the whole array is refused
-			if let (Some(d), true) = (&delivered, w[1] == "deliver") {
+			if let (Some(d), true, None) = (&delivered, w[1] == "deliver", answered_abandoned_batch) {
 				if array_has_response(d) {
 					nontrivial = true;
 					let batch_done = obs.comps.iter().any(|(op, _)| orc.kinds.get(*op) == Some(&Kind::Batch));
@@ -410,6 +478,84 @@ fn noise(rng: &mut Rng, subs: &[String], next_id: u64, str_ids: bool, lethal: bo
 		_ => {
 			let s = if subs.is_empty() { "nobody".to_string() } else { rng.pick(subs).clone() };
 			format!("{{\"jsonrpc\":\"2.0\",\"method\":\"sub\",\"params\":{{\"subscription\":\"{s}\",\"error\":\"closed\"}}}}")
+		}
+	}
+}
+
+
+/// Late answers to abandoned operations — a deterministic family.  `kinds[i]` is the kind of operation i (0 call, 1 batch
+/// of two, 2 subscribe); the operations in `abandon` are given up by the application (their futures dropped), either
+/// right after they were issued or after all were issued; then one more call is issued; then every operation is answered,
+/// the abandoned ones late, in the order `order` (a permutation of all k+1 answers).  An abandoned operation stays
+/// registered: its answer is absorbed, completes nothing and does not disturb the connection; every live operation
+/// completes with its own answer (seeded mutant C03-R8 purged abandoned calls when the next call was registered: the
+/// late answer then "matches nothing pending", the connection is given up and the live calls get RestartNeeded).
+fn gen_abandon_case(rng: &mut Rng, out: &mut Out, caseno: u64, kinds: &[u8], abandon: &[usize], at_once: bool, order: &[usize]) -> Vec<String> {
+	let str_ids = rng.chance(1, 3);
+	let mut lines = vec![format!("case {caseno} client {} 2 64", if str_ids { "str" } else { "num" })];
+	let mut next_id = 0u64;
+	let mut open: Vec<Open> = vec![];
+	let mut subs: Vec<String> = vec![];
+	for (op, k) in kinds.iter().enumerate() {
+		match k {
+			0 => {
+				lines.push("cl call".into());
+				open.push(Open::Call { id: next_id });
+				next_id += 1;
+			}
+			1 => {
+				lines.push("cl batch 2".into());
+				open.push(Open::Batch { start: next_id, n: 2 });
+				next_id += 2;
+			}
+			_ => {
+				lines.push("cl subscribe".into());
+				open.push(Open::Sub { id: next_id, op });
+				next_id += 2;
+			}
+		}
+		if at_once && abandon.contains(&op) {
+			lines.push(format!("cl abandon {op}"));
+		}
+	}
+	if !at_once {
+		for op in abandon {
+			lines.push(format!("cl abandon {op}"));
+		}
+	}
+	// one more call, issued after the others were given up
+	lines.push("cl call".into());
+	open.push(Open::Call { id: next_id });
+	next_id += 1;
+	for i in order {
+		let (text, _) = correct_answer(rng, &open[*i], str_ids, &mut subs);
+		lines.push(deliver_line(rng, &text, |k| out.count(k)));
+	}
+	// the connection still works
+	lines.push("cl call".into());
+	let last = answer(rng, &idj(next_id, str_ids), next_id);
+	lines.push(deliver_line(rng, &last, |k| out.count(k)));
+	lines.push("cl connected".into());
+	lines
+}
+
+/// all cases of the family for `k` operations
+fn gen_abandon_family(rng: &mut Rng, out: &mut Out, caseno: &mut u64, k: usize, lines: &mut Vec<String>) {
+	for mask in 1u32..(1 << k) {
+		let abandon: Vec<usize> = (0..k).filter(|i| mask >> i & 1 == 1).collect();
+		if abandon.len() > 3 {
+			continue;
+		}
+		for variant in 0..3u8 {
+			// abandoned operations rotate through call / batch / subscribe, the others are calls
+			let kinds: Vec<u8> = (0..k).map(|i| if abandon.contains(&i) { (i as u8 + variant) % 3 } else { 0 }).collect();
+			for at_once in [true, false] {
+				for order in permutations(k + 1) {
+					*caseno += 1;
+					out.count("family.late-answers-to-abandoned");
+					lines.extend(gen_abandon_case(rng, out, *caseno, &kinds, &abandon, at_once, &order));
+				}
+			}
 		}
 	}
 }
@@ -614,6 +760,11 @@ fn main() {
 				caseno += 1;
 				lines.extend(gen_case(&mut rng, &mut out, caseno, Some(p)));
 			}
+		}
+		// late answers to 1-3 abandoned calls / batches / subscribes among k operations, every answer order: k <= 3 (thorough 4)
+		let mut fam_no = 3_000_000u64;
+		for k in 1..=(if a.tier == "thorough" { 4 } else { 3 }) {
+			gen_abandon_family(&mut rng, &mut out, &mut fam_no, k, &mut lines);
 		}
 		for _ in 0..n {
 			caseno += 1;
